@@ -11,7 +11,9 @@ import random
 import sys
 from decimal import Decimal
 from enum import Enum
-from typing import Optional, Union, Any, Tuple, FrozenSet
+from typing import Optional, Union, Any, Tuple, FrozenSet, NamedTuple
+
+import pydantic
 
 LONG = "L" * 70
 
@@ -19,6 +21,17 @@ LONG = "L" * 70
 class Color(Enum):
     RED = "red"
     BLUE = "blue sky"
+
+
+class _NT(NamedTuple):
+    x: float = 0.0
+    y: float = 1.0
+
+
+class _BM(pydantic.BaseModel):
+    model_config = pydantic.ConfigDict(frozen=True)
+    x: float = 0.0
+    t: Tuple[float, ...] = ()
 
 
 def define():
@@ -117,6 +130,8 @@ def define():
 
     @h.paramclass
     class PE:
+        nt = h.Param(dtype=Optional[_NT], desc="a named tuple", default=None)
+        bm = h.Param(dtype=Optional[_BM], desc="a frozen pydantic model", default=None)
         pts = h.Param(dtype=Tuple[float, ...], desc="points", default=())
         fs = h.Param(dtype=FrozenSet[float], desc="set of floats", default=frozenset())
         inner = h.Param(dtype=PEI, desc="nested", default=PEI())
@@ -287,6 +302,10 @@ def calls(value_seed: int, n: int):
                     kw[f] = fl()
             if r.random() < 0.3:
                 kw["nest"] = [fl(), fl()]
+            if r.random() < 0.3:
+                kw["nt"] = r.choice([0.0, -0.0, 1.0])
+            if r.random() < 0.3:
+                kw["bm"] = r.choice([[0.0, []], [-0.0, []], [1.0, [0.0]], [1.0, [-0.0]]])
         elif g == "G15":
             kw = {"tag": r.choice([1, "1", 0, "0", "x", 2, "None", "1.0"]), "anyv": r.choice([None, "None", 1, "1", 1.5, "1.5", True]), "n": r.choice([None, 1])}
         elif g == "G10":
@@ -338,6 +357,10 @@ def calls(value_seed: int, n: int):
     for f in ("pts", "fs", "inner"):
         for v in ([0.0, 1.0], [-0.0, 1.0], [0.0], [-0.0]):
             out.append(("G17", "kw", {f: v}))
+    for v in (0.0, -0.0):
+        out.append(("G17", "kw", {"nt": v}))
+        out.append(("G17", "kw", {"bm": [v, []]}))
+        out.append(("G17", "kw", {"bm": [1.0, [v]]}))
     out.append(("G17", "kw", {"nest": [[0.0], [1.0]]}))
     out.append(("G17", "kw", {"nest": [[-0.0], [1.0]]}))
     for x in ("XDZ1", "XDZ2", "XDZ3"):
@@ -411,6 +434,10 @@ def realise(gens, P, g, kw):
             kw["inner"] = P["PEI"](pts=tuple(kw["inner"]))
         if "nest" in kw:
             kw["nest"] = tuple(tuple(x) for x in kw["nest"])
+        if "nt" in kw:
+            kw["nt"] = _NT(x=kw["nt"])
+        if "bm" in kw:
+            kw["bm"] = _BM(x=kw["bm"][0], t=tuple(kw["bm"][1]))
     if g == "G16":
         kw["d"] = Decimal(kw["d"])
     if g == "G12":
